@@ -1,3 +1,3 @@
 SPECIFICATION Spec
-CONSTANTS Lines <- Id3  Prog <- ProgSelf  BpSets <- BpsSelf  MaxReq = 3  Deviations <- NoDev  Fuel = 12
+CONSTANTS LibLines <- NoLib  Lines <- Id3  Prog <- ProgSelf  BpSets <- BpsSelf  MaxReq = 3  Deviations <- NoDev  Fuel = 12
 INVARIANT NoSkippedBreakpoint
